@@ -231,7 +231,7 @@ func (s *sched) regSend(sid, name int) (att int, passedExist bool) {
 		w.fail("sched-send-failed", err.Error())
 		panic(abortCase{})
 	}
-	w.item(fmt.Sprintf("IAct (AReq %d (RNew %d %d true true))", sid, name, att))
+	w.item(fmt.Sprintf("IAct (AReq %d (RNew %d %d 1%%Z true true))", sid, name, att))
 	w.item(fmt.Sprintf("IRun (TSess %d)", sid))
 	if present {
 		// the Exist check must refuse: the answer is on its way
